@@ -62,162 +62,443 @@ Proof.
 Qed.
 
 (* ---------- one RPC ---------- *)
-Lemma retry_iff_retryable : forall p ovf k sc, script_ok sc = true ->
-  (should_retry (attempt_facts p ovf k sc) = Retry <-> retryable p ovf k sc = true).
+Definition scs_ok (scs : list script) : Prop := Forall (fun s => script_ok s = true) scs.
+
+Lemma scs_ok_tl : forall scs, scs_ok scs -> scs_ok (tl scs).
+Proof. intros [|s r] H; [constructor|inversion H; assumption]. Qed.
+
+Lemma act_cases : forall sc, script_ok sc = true ->
+  s_act sc = 0 \/ s_act sc = 1 \/ s_act sc = 2 \/ s_act sc = 3 \/ s_act sc = 4.
 Proof.
-  intros p ovf k sc Hok. unfold script_ok in Hok.
-  repeat (apply andb_prop in Hok; destruct Hok as [Hok ?]).
-  unfold should_retry, attempt_facts, retryable; cbn.
-  destruct ovf; cbn; [split; discriminate|].
-  rewrite andb_false_r. cbn.
-  destruct (Z.eqb_spec (s_act sc) 0); cbn; [|split; discriminate].
-  destruct (Z.eqb_spec (s_pb sc) 2), (Z.eqb_spec (s_pb sc) 3), (Z.eqb_spec (s_pb sc) 0), (Z.eqb_spec (s_pb sc) 1);
-    cbn; try lia; try (rewrite andb_false_r; split; discriminate);
-    destruct (in_codes p (s_code sc)); cbn; try (split; discriminate);
-    destruct (Z.geb_spec (k + 1) (eff_max p)), (Z.ltb_spec (k + 1) (eff_max p)); try lia; split; auto; discriminate.
+  intros sc H. unfold script_ok in H. repeat (apply andb_prop in H; destruct H as [H ?]).
+  apply Z.leb_le in H3, H4. lia.
 Qed.
+
+Lemma pb_cases : forall sc, script_ok sc = true ->
+  s_pb sc = 0 \/ s_pb sc = 1 \/ s_pb sc = 2 \/ s_pb sc = 3.
+Proof.
+  intros sc H. unfold script_ok in H. repeat (apply andb_prop in H; destruct H as [H ?]).
+  apply Z.leb_le in H0, H1. lia.
+Qed.
+
+(* the decision for a scripted attempt, in closed form *)
+Lemma decision_eq : forall p c first k sc, script_ok sc = true ->
+  should_retry (attempt_facts p c first k sc) =
+    if transp c first sc then Transparent else if retryable p c first k sc then Retry else NoRetry.
+Proof.
+  intros p c first k sc Hok.
+  pose proof (act_cases sc Hok) as Ha. pose proof (pb_cases sc Hok) as Hp.
+  unfold should_retry, attempt_facts, transp, retryable, unproc; cbn [f_finished f_committed f_drop f_has_stream
+    f_allow_transparent f_first_attempt f_unprocessed f_disable_retry f_trailers_only f_pushback f_has_policy
+    f_code_in_policy f_throttled f_num_retries f_max_attempts].
+  rewrite Z.geb_leb, Z.leb_antisym.
+  destruct Ha as [Ha|[Ha|[Ha|[Ha|Ha]]]]; rewrite Ha; cbn;
+    destruct c, first; cbn; try reflexivity;
+    try (destruct (in_codes p 14); cbn; try reflexivity; destruct (k + 1 <? eff_max p); reflexivity);
+    destruct Hp as [Hp|[Hp|[Hp|Hp]]]; rewrite Hp; cbn;
+    destruct (in_codes p (s_code sc)); cbn; try reflexivity; destruct (k + 1 <? eff_max p); reflexivity.
+Qed.
+
+Lemma attempts_S : forall f p sizes first k sent scs, scs_ok scs ->
+  attempts (S f) p sizes first k sent scs =
+    let sc := hd_script scs in
+    let m := Z.of_nat (length sizes) in
+    let a := mkatt k (recv_of m sc) (eof_of m sc) sc sent first in
+    let sent' := sent_after m sent sc in
+    let ovf := over p sizes sent' in
+    if s_act sc =? 2 then [a]
+    else if transp ovf first sc then a :: attempts f p sizes false k sent' (tl scs)
+    else if retryable p ovf first k sc then a :: attempts f p sizes false (k + 1) sent' (tl scs)
+    else [a].
+Proof.
+  intros f p sizes first k sent scs Hok. cbn [attempts]. cbv zeta.
+  destruct (s_act (hd_script scs) =? 2) eqn:E2; [reflexivity|].
+  rewrite decision_eq.
+  - destruct (transp _ first _); [reflexivity|]. destruct (retryable _ _ first k _); reflexivity.
+  - destruct scs as [|s r]; [cbn in E2; discriminate|]. inversion Hok; assumption.
+Qed.
+
+Lemma attempts_nonempty : forall f p sizes first k sent scs, attempts (S f) p sizes first k sent scs <> [].
+Proof.
+  intros. cbn [attempts]. cbv zeta. destruct (s_act _ =? 2); [discriminate|]. destruct (should_retry _); discriminate.
+Qed.
+
+(* the first attempt of a (sub)run *)
+Lemma attempts_head : forall fuel p sizes first k sent scs b,
+  nth_error (attempts fuel p sizes first k sent scs) 0 = Some b ->
+  a_prev b = k /\ a_sent b = sent /\ a_first b = first /\ a_sc b = hd_script scs.
+Proof.
+  intros [|f] p sizes first k sent scs b H; [discriminate|]. cbn [attempts] in H. cbv zeta in H.
+  destruct (s_act _ =? 2); [|destruct (should_retry _)]; inversion H; subst; cbn; auto.
+Qed.
+
+Lemma retryable_lt : forall p c first k sc, retryable p c first k sc = true -> k + 1 < eff_max p.
+Proof. intros p c first k sc H. unfold retryable in H. apply andb_prop in H. destruct H as [_ H]. apply Z.ltb_lt. exact H. Qed.
+
+Lemma transp_first : forall c first sc, transp c first sc = true -> c = false /\ first = true /\ unproc sc = true.
+Proof. intros c first sc H. unfold transp in H. destruct c, first, (unproc sc); try discriminate; auto. Qed.
+
+Lemma retryable_uncommitted : forall p c first k sc, retryable p c first k sc = true -> c = false.
+Proof. intros p c first k sc H. unfold retryable in H. destruct c; [discriminate|reflexivity]. Qed.
 
 (* "the number of non-transparent attempts never exceeds the effective maximum" *)
-Lemma attempts_bound : forall fuel p m c k scs, 0 <= k ->
-  Z.of_nat (length (attempts fuel p m c k scs)) <= Z.max 1 (eff_max p - k).
+Lemma attempts_bound : forall fuel p sizes first k sent scs, scs_ok scs -> 0 <= k ->
+  Z.of_nat (length (attempts fuel p sizes first k sent scs)) <= Z.max 1 (eff_max p - k) + (if first then 1 else 0).
 Proof.
-  induction fuel as [|f IH]; intros p m c k scs Hk; cbn [attempts]; [cbn; lia|].
-  destruct (s_act (hd_script scs) =? 2) eqn:E2.
-  { unfold hd_script in E2. rewrite E2. cbn. lia. }
-  unfold hd_script in E2. rewrite E2.
-  destruct (should_retry _) eqn:Hd; try (cbn; lia).
-  apply retry_requirements in Hd. destruct Hd as (_&_&_&_&_&Hlt). cbn in Hlt.
-  cbn [length]. specialize (IH p m c (k + 1) (tl scs) ltac:(lia)). lia.
+  induction fuel as [|f IH]; intros p sizes first k sent scs Hok Hk; [cbn; destruct first; lia|].
+  rewrite attempts_S by exact Hok. cbv zeta.
+  destruct (s_act _ =? 2); [cbn; destruct first; lia|].
+  destruct (transp _ first _) eqn:Ht.
+  - apply transp_first in Ht. destruct Ht as (_ & -> & _). cbn [length].
+    specialize (IH p sizes false k (sent_after (Z.of_nat (length sizes)) sent (hd_script scs)) (tl scs) (scs_ok_tl _ Hok) Hk). lia.
+  - destruct (retryable _ _ first k _) eqn:Hr; [|cbn; destruct first; lia].
+    apply retryable_lt in Hr. cbn [length].
+    specialize (IH p sizes false (k + 1) (sent_after (Z.of_nat (length sizes)) sent (hd_script scs)) (tl scs) (scs_ok_tl _ Hok) ltac:(lia)).
+    destruct first; lia.
 Qed.
 
-Theorem attempt_bound : forall p sizes scs, 2 <= eff_max p ->
-  Z.of_nat (length (rpc_attempts p sizes scs)) <= eff_max p.
-Proof. intros p sizes scs H. unfold rpc_attempts. pose proof (attempts_bound (Z.to_nat (eff_max p) + 1) p (Z.of_nat (length sizes)) (first_overflows p sizes) 0 scs). lia. Qed.
-
-(* attempts are numbered consecutively from 0 (grpc-previous-rpc-attempts) and each receives the
-   first min(r, m) messages of the application, in order, plus the half-close iff r > m *)
-Lemma attempts_numbered : forall fuel p m c k scs i a, nth_error (attempts fuel p m c k scs) i = Some a ->
-  a_prev a = k + Z.of_nat i /\ a_recv a = Z.min (s_r (a_sc a)) m /\ a_eof a = (m <? s_r (a_sc a)) /\
-  a_sc a = hd_script (skipn i scs).
+(* grpc-previous-rpc-attempts (= number of counted retries so far) stays below the maximum *)
+Lemma attempts_prev_bound : forall fuel p sizes first k sent scs a, scs_ok scs ->
+  In a (attempts fuel p sizes first k sent scs) -> k <= a_prev a /\ a_prev a + 1 <= Z.max (eff_max p) (k + 1).
 Proof.
-  induction fuel as [|f IH]; intros p m c k scs i a H; cbn [attempts] in H; [destruct i; discriminate|].
-  fold (hd_script scs) in H.
-  assert (Hhd : forall x, nth_error [mkatt k (Z.min (s_r (hd_script scs)) m) (m <? s_r (hd_script scs)) (hd_script scs)] i = Some x ->
-          a_prev x = k + Z.of_nat i /\ a_recv x = Z.min (s_r (a_sc x)) m /\ a_eof x = (m <? s_r (a_sc x)) /\ a_sc x = hd_script (skipn i scs)).
-  { intros x Hx. destruct i as [|i]; [|destruct i; discriminate]. inversion Hx; subst; cbn. repeat split; auto; lia. }
-  destruct (s_act (hd_script scs) =? 2); [apply Hhd; exact H|].
-  destruct (should_retry _); try (apply Hhd; exact H).
-  destruct i as [|i]; [inversion H; subst; cbn; repeat split; auto; lia|].
-  cbn in H. destruct (IH _ _ _ _ _ _ _ H) as (A&B&C&D). repeat split; auto; try lia.
-  rewrite D. destruct scs; [destruct i; reflexivity|reflexivity].
+  induction fuel as [|f IH]; intros p sizes first k sent scs a Hok Hin; [destruct Hin|].
+  rewrite attempts_S in Hin by exact Hok. cbv zeta in Hin.
+  assert (Hhd : forall x, In a [x] -> a_prev x = k -> k <= a_prev a /\ a_prev a + 1 <= Z.max (eff_max p) (k + 1)).
+  { intros x [->|[]] Hx. lia. }
+  destruct (s_act _ =? 2); [eapply Hhd; [exact Hin|reflexivity]|].
+  destruct (transp _ first _).
+  - destruct Hin as [<-|Hin]; [cbn; lia|]. apply IH in Hin; [lia|apply scs_ok_tl; exact Hok].
+  - destruct (retryable _ _ first k _) eqn:Hr; [|eapply Hhd; [exact Hin|reflexivity]].
+    apply retryable_lt in Hr. destruct Hin as [<-|Hin]; [cbn; lia|].
+    apply IH in Hin; [lia|apply scs_ok_tl; exact Hok].
 Qed.
 
-Theorem replay_exact : forall p sizes scs i a, nth_error (rpc_attempts p sizes scs) i = Some a ->
-  a_prev a = Z.of_nat i /\
+Lemma hd_skipn_tl : forall i (scs : list script), hd_script (skipn i (tl scs)) = hd_script (skipn (S i) scs).
+Proof. intros i [|s r]; [destruct i; reflexivity|reflexivity]. Qed.
+
+(* attempt number i: its script, what its handler receives, what had been produced when it
+   started, and whether it is the RPC's first attempt *)
+Lemma attempts_nth : forall fuel p sizes first k sent scs i a, scs_ok scs ->
+  nth_error (attempts fuel p sizes first k sent scs) i = Some a ->
+  a_sc a = hd_script (skipn i scs) /\
+  a_recv a = recv_of (Z.of_nat (length sizes)) (a_sc a) /\ a_eof a = eof_of (Z.of_nat (length sizes)) (a_sc a) /\
+  a_sent a = sent_upto (Z.of_nat (length sizes)) scs i sent /\
+  a_first a = (first && Nat.eqb i 0).
+Proof.
+  induction fuel as [|f IH]; intros p sizes first k sent scs i a Hok H; [destruct i; discriminate|].
+  rewrite attempts_S in H by exact Hok. cbv zeta in H.
+  assert (Hhd : forall x, x = mkatt k (recv_of (Z.of_nat (length sizes)) (hd_script scs)) (eof_of (Z.of_nat (length sizes)) (hd_script scs))
+                     (hd_script scs) sent first -> nth_error [x] i = Some a ->
+     a_sc a = hd_script (skipn i scs) /\
+     a_recv a = recv_of (Z.of_nat (length sizes)) (a_sc a) /\ a_eof a = eof_of (Z.of_nat (length sizes)) (a_sc a) /\
+     a_sent a = sent_upto (Z.of_nat (length sizes)) scs i sent /\ a_first a = (first && Nat.eqb i 0)).
+  { intros x -> Hx. destruct i as [|i]; [|destruct i; discriminate]. inversion Hx; subst; cbn.
+    rewrite andb_true_r. auto. }
+  assert (Hrec : forall k', nth_error (mkatt k (recv_of (Z.of_nat (length sizes)) (hd_script scs)) (eof_of (Z.of_nat (length sizes)) (hd_script scs))
+                     (hd_script scs) sent first ::
+                   attempts f p sizes false k' (sent_after (Z.of_nat (length sizes)) sent (hd_script scs)) (tl scs)) i = Some a ->
+     a_sc a = hd_script (skipn i scs) /\
+     a_recv a = recv_of (Z.of_nat (length sizes)) (a_sc a) /\ a_eof a = eof_of (Z.of_nat (length sizes)) (a_sc a) /\
+     a_sent a = sent_upto (Z.of_nat (length sizes)) scs i sent /\ a_first a = (first && Nat.eqb i 0)).
+  { intros k' Hx. destruct i as [|i]; [eapply Hhd; [reflexivity|exact Hx]|].
+    cbn [nth_error] in Hx. apply IH in Hx; [|apply scs_ok_tl; exact Hok].
+    destruct Hx as (A & B & C & D & E). rewrite hd_skipn_tl in A. cbn [sent_upto].
+    rewrite andb_false_r. cbn in E. auto. }
+  destruct (s_act _ =? 2); [eapply Hhd; [reflexivity|exact H]|].
+  destruct (transp _ first _); [eapply Hrec; exact H|].
+  destruct (retryable _ _ first k _); [eapply Hrec; exact H|eapply Hhd; [reflexivity|exact H]].
+Qed.
+
+(* two consecutive attempts: the earlier one was due a retry - transparent (not counted) or
+   by policy (counted) - decided with cs.committed = "the buffer limit was exceeded by a message
+   produced before its failure was noticed" *)
+Lemma attempts_step : forall fuel p sizes first k sent scs i a b, scs_ok scs ->
+  nth_error (attempts fuel p sizes first k sent scs) i = Some a ->
+  nth_error (attempts fuel p sizes first k sent scs) (S i) = Some b ->
+  let ovf := over p sizes (sent_after (Z.of_nat (length sizes)) (a_sent a) (a_sc a)) in
+  (transp ovf (a_first a) (a_sc a) = true /\ a_prev b = a_prev a) \/
+  (transp ovf (a_first a) (a_sc a) = false /\ retryable p ovf (a_first a) (a_prev a) (a_sc a) = true /\
+   a_prev b = a_prev a + 1).
+Proof.
+  induction fuel as [|f IH]; intros p sizes first k sent scs i a b Hok Ha Hb; [destruct i; discriminate|].
+  rewrite attempts_S in Ha, Hb by exact Hok. cbv zeta in Ha, Hb.
+  destruct (s_act _ =? 2); [destruct i; discriminate|].
+  destruct (transp _ first _) eqn:Ht.
+  - destruct i as [|i].
+    + inversion Ha; subst a; clear Ha. cbn [nth_error] in Hb. apply attempts_head in Hb.
+      destruct Hb as (Hb & _). cbn. left. split; [exact Ht|exact Hb].
+    + cbn [nth_error] in Ha, Hb. exact (IH _ _ _ _ _ _ _ _ _ (scs_ok_tl _ Hok) Ha Hb).
+  - destruct (retryable _ _ first k _) eqn:Hr; [|destruct i; discriminate].
+    destruct i as [|i].
+    + inversion Ha; subst a; clear Ha. cbn [nth_error] in Hb. apply attempts_head in Hb.
+      destruct Hb as (Hb & _). cbn. right. split; [exact Ht|split; [exact Hr|exact Hb]].
+    + cbn [nth_error] in Ha, Hb. exact (IH _ _ _ _ _ _ _ _ _ (scs_ok_tl _ Hok) Ha Hb).
+Qed.
+
+(* ---------- the statements about one RPC ---------- *)
+Lemma over_0 : forall p sizes, 0 <= p_buf_limit p -> over p sizes 0 = false.
+Proof. intros p sizes H. unfold over, cum. cbn. apply Z.ltb_ge. exact H. Qed.
+
+(* at most eff_max attempts, plus the uncounted transparent retry of an unprocessed first attempt *)
+Theorem attempt_bound : forall p sizes scs, scs_ok scs -> 2 <= eff_max p ->
+  Z.of_nat (length (rpc_attempts p sizes scs)) <= eff_max p + (if unproc (hd_script scs) then 1 else 0).
+Proof.
+  intros p sizes scs Hok H. unfold rpc_attempts.
+  replace (Z.to_nat (eff_max p) + 2)%nat with (S (Z.to_nat (eff_max p) + 1)) by lia.
+  rewrite attempts_S by exact Hok. cbv zeta.
+  destruct (s_act _ =? 2); [cbn; destruct (unproc _); lia|].
+  destruct (transp _ true _) eqn:Ht.
+  - apply transp_first in Ht. destruct Ht as (_ & _ & ->). cbn [length].
+    pose proof (attempts_bound (Z.to_nat (eff_max p) + 1) p sizes false 0
+      (sent_after (Z.of_nat (length sizes)) 0 (hd_script scs)) (tl scs) (scs_ok_tl _ Hok) ltac:(lia)). lia.
+  - destruct (retryable _ _ true 0 _) eqn:Hr; [|cbn; destruct (unproc _); lia].
+    cbn [length].
+    pose proof (attempts_bound (Z.to_nat (eff_max p) + 1) p sizes false (0 + 1)
+      (sent_after (Z.of_nat (length sizes)) 0 (hd_script scs)) (tl scs) (scs_ok_tl _ Hok) ltac:(lia)).
+    destruct (unproc _); lia.
+Qed.
+
+(* the counted attempts: every attempt's grpc-previous-rpc-attempts is below the maximum, the
+   first one has 0, and from one attempt to the next it grows by one unless the retry was
+   transparent, which happens only after attempt number 0 *)
+Theorem counted_attempts_bound : forall p sizes scs a, scs_ok scs -> 2 <= eff_max p ->
+  In a (rpc_attempts p sizes scs) -> 0 <= a_prev a /\ a_prev a + 1 <= eff_max p.
+Proof.
+  intros p sizes scs a Hok H Hin. unfold rpc_attempts in Hin. apply attempts_prev_bound in Hin; [lia|exact Hok].
+Qed.
+
+Theorem first_attempt_number : forall p sizes scs a, nth_error (rpc_attempts p sizes scs) 0 = Some a -> a_prev a = 0.
+Proof. intros p sizes scs a H. unfold rpc_attempts in H. apply attempts_head in H. tauto. Qed.
+
+Theorem attempt_numbering : forall p sizes scs i a b, scs_ok scs ->
+  nth_error (rpc_attempts p sizes scs) i = Some a -> nth_error (rpc_attempts p sizes scs) (S i) = Some b ->
+  a_prev b = a_prev a + 1 \/
+  (a_prev b = a_prev a /\ i = 0%nat /\ unproc (a_sc a) = true /\
+   over p sizes (a_sent a) = false).
+Proof.
+  intros p sizes scs i a b Hok Ha Hb. unfold rpc_attempts in *.
+  pose proof (attempts_step _ _ _ _ _ _ _ _ _ _ Hok Ha Hb) as Hs. cbv zeta in Hs.
+  destruct Hs as [[Ht Hp]|(_ & _ & Hp)]; [right|left; exact Hp].
+  apply transp_first in Ht. destruct Ht as (Hc & Hf & Hu).
+  destruct (attempts_nth _ _ _ _ _ _ _ _ _ Hok Ha) as (_ & _ & _ & _ & E).
+  rewrite Hf in E. cbn in E. split; [exact Hp|]. split; [destruct i; [reflexivity|discriminate]|].
+  split; [exact Hu|]. unfold sent_after in Hc. rewrite Hu in Hc. exact Hc.
+Qed.
+
+(* "Transparent retries happen only for attempts the server never processed": a retry that is
+   not counted follows only the RPC's first attempt, whose stream was refused / above the
+   GOAWAY id, with nothing committed *)
+Theorem transparent_retry_only_unprocessed : forall p sizes scs i a b, scs_ok scs ->
+  nth_error (rpc_attempts p sizes scs) i = Some a -> nth_error (rpc_attempts p sizes scs) (S i) = Some b ->
+  a_prev b = a_prev a ->
+  i = 0%nat /\ (s_act (a_sc a) = 3 \/ s_act (a_sc a) = 4) /\ a_recv a = 0 /\ a_eof a = false /\
+  over p sizes (a_sent a) = false.
+Proof.
+  intros p sizes scs i a b Hok Ha Hb He.
+  destruct (attempt_numbering _ _ _ _ _ _ Hok Ha Hb) as [H|(_ & Hi & Hu & Hc)]; [lia|].
+  unfold rpc_attempts in Ha. destruct (attempts_nth _ _ _ _ _ _ _ _ _ Hok Ha) as (_ & R & E & _ & _).
+  unfold recv_of in R. unfold eof_of in E. rewrite Hu in R, E.
+  split; [exact Hi|]. split; [|auto]. unfold unproc in Hu. apply orb_prop in Hu.
+  destruct Hu as [Hu|Hu]; apply Z.eqb_eq in Hu; auto.
+Qed.
+
+(* the retry of an unprocessed first attempt always happens and is not counted *)
+Theorem unprocessed_first_attempt_retried_uncounted : forall p sizes scs, scs_ok scs -> 0 <= p_buf_limit p ->
+  unproc (hd_script scs) = true ->
+  exists a b, nth_error (rpc_attempts p sizes scs) 0 = Some a /\ nth_error (rpc_attempts p sizes scs) 1 = Some b /\
+              a_prev a = 0 /\ a_prev b = 0 /\ a_first b = false.
+Proof.
+  intros p sizes scs Hok Hl Hu. unfold rpc_attempts.
+  replace (Z.to_nat (eff_max p) + 2)%nat with (S (S (Z.to_nat (eff_max p)))) by lia.
+  rewrite attempts_S by exact Hok. cbv zeta.
+  assert (E2 : s_act (hd_script scs) =? 2 = false).
+  { unfold unproc in Hu. apply orb_prop in Hu. destruct Hu as [Hu|Hu]; apply Z.eqb_eq in Hu; rewrite Hu; reflexivity. }
+  rewrite E2. unfold sent_after, transp. rewrite Hu, over_0 by exact Hl. cbn [negb andb].
+  pose proof (attempts_nonempty (Z.to_nat (eff_max p)) p sizes false 0 0 (tl scs)) as Hne.
+  destruct (attempts (S (Z.to_nat (eff_max p))) p sizes false 0 0 (tl scs)) as [|b r] eqn:Eb; [contradiction|].
+  assert (Hb : nth_error (attempts (S (Z.to_nat (eff_max p))) p sizes false 0 0 (tl scs)) 0 = Some b) by (rewrite Eb; reflexivity).
+  apply attempts_head in Hb. destruct Hb as (B1 & _ & B3 & _).
+  eexists; exists b. cbn. auto.
+Qed.
+
+(* "Every retry attempt sends the server exactly the same sequence of messages and
+   half-close as the application produced so far" *)
+Theorem replay_exact : forall p sizes scs i a, scs_ok scs -> nth_error (rpc_attempts p sizes scs) i = Some a ->
+  a_sc a = hd_script (skipn i scs) /\
   (exists rest, sizes = firstn (Z.to_nat (a_recv a)) sizes ++ rest) /\
-  a_recv a = Z.min (s_r (a_sc a)) (Z.of_nat (length sizes)) /\
-  (a_eof a = true <-> Z.of_nat (length sizes) < s_r (a_sc a)).
+  (unproc (a_sc a) = false ->
+     a_recv a = Z.min (s_r (a_sc a)) (Z.of_nat (length sizes)) /\
+     (a_eof a = true <-> Z.of_nat (length sizes) < s_r (a_sc a))) /\
+  (unproc (a_sc a) = true -> a_recv a = 0 /\ a_eof a = false) /\
+  a_sent a = sent_upto (Z.of_nat (length sizes)) scs i 0.
 Proof.
-  intros p sizes scs i a H. unfold rpc_attempts in H. destruct (attempts_numbered _ _ _ _ _ _ _ _ H) as (A&B&C&D).
-  split; [lia|]. split; [exists (skipn (Z.to_nat (a_recv a)) sizes); symmetry; apply firstn_skipn|].
-  split; [exact B|]. rewrite C. apply Z.ltb_lt.
+  intros p sizes scs i a Hok H. unfold rpc_attempts in H.
+  destruct (attempts_nth _ _ _ _ _ _ _ _ _ Hok H) as (A & B & C & D & _).
+  split; [exact A|]. split; [exists (skipn (Z.to_nat (a_recv a)) sizes); symmetry; apply firstn_skipn|].
+  unfold recv_of in B. unfold eof_of in C.
+  split; [intro Hu; rewrite Hu in B, C; split; [exact B|rewrite C; apply Z.ltb_lt]|].
+  split; [intro Hu; rewrite Hu in B, C; auto|exact D].
 Qed.
 
-(* "no retry happens once ... the replay buffer limit was exceeded" (first message) and
-   "only if the failed attempt received no response headers and ended with a code in the
-   retry policy": every attempt that is followed by another one was retryable *)
-Lemma attempts_retried : forall fuel p m c k scs i a, Forall (fun s => script_ok s = true) scs ->
-  nth_error (attempts fuel p m c k scs) i = Some a -> (S i < length (attempts fuel p m c k scs))%nat ->
-  retryable p c (k + Z.of_nat i) (a_sc a) = true.
-Proof.
-  induction fuel as [|f IH]; intros p m c k scs i a Hok H Hl; cbn [attempts] in *; [destruct i; discriminate|].
-  fold (hd_script scs) in *.
-  destruct (s_act (hd_script scs) =? 2) eqn:E2; [cbn in Hl; lia|].
-  destruct (should_retry _) eqn:Hd; try (cbn in Hl; lia).
-  destruct i as [|i].
-  - inversion H; subst; cbn. replace (k + 0) with k by lia. apply retry_iff_retryable; [|exact Hd].
-    destruct scs as [|s scs]; [cbn in E2; discriminate|]. inversion Hok; assumption.
-  - cbn in H, Hl. replace (k + Z.of_nat (S i)) with (k + 1 + Z.of_nat i) by lia.
-    apply (IH p m c (k + 1) (tl scs) i a); [destruct scs; [constructor|inversion Hok; assumption]|exact H|lia].
-Qed.
-
-Theorem retried_attempts_were_retryable : forall p sizes scs i a, Forall (fun s => script_ok s = true) scs ->
+(* every attempt that is followed by another one: nothing was committed when its failure was
+   noticed (the buffer limit not exceeded by the messages produced until then), and either it was
+   the first attempt and unprocessed, or: no response headers (trailers-only, or unprocessed =
+   UNAVAILABLE without headers), code in the policy, no aborting pushback, below the limit *)
+Theorem retried_attempts_were_retryable : forall p sizes scs i a, scs_ok scs ->
   nth_error (rpc_attempts p sizes scs) i = Some a -> (S i < length (rpc_attempts p sizes scs))%nat ->
-  first_overflows p sizes = false /\ s_act (a_sc a) = 0 /\ in_codes p (s_code (a_sc a)) = true /\
-  (s_pb (a_sc a) = 0 \/ s_pb (a_sc a) = 1) /\ Z.of_nat i + 1 < eff_max p.
+  over p sizes (sent_after (Z.of_nat (length sizes)) (a_sent a) (a_sc a)) = false /\
+  ((i = 0%nat /\ unproc (a_sc a) = true) \/
+   (unproc (a_sc a) = true /\ in_codes p 14 = true /\ a_prev a + 1 < eff_max p) \/
+   (s_act (a_sc a) = 0 /\ in_codes p (s_code (a_sc a)) = true /\
+    (s_pb (a_sc a) = 0 \/ s_pb (a_sc a) = 1) /\ a_prev a + 1 < eff_max p)).
 Proof.
-  intros p sizes scs i a Hok H Hl. pose proof (attempts_retried _ _ _ _ _ _ _ _ Hok H Hl) as R.
-  unfold retryable in R. repeat (apply andb_prop in R; destruct R as [R ?]).
-  apply negb_true_iff in R. apply Z.eqb_eq in H3. apply Z.ltb_lt in H0.
-  apply orb_prop in H1. split; [exact R|]. split; [exact H3|]. split; [exact H2|]. split; [|lia].
-  destruct H1 as [E|E]; apply Z.eqb_eq in E; auto.
+  intros p sizes scs i a Hok Ha Hl.
+  destruct (nth_error (rpc_attempts p sizes scs) (S i)) as [b|] eqn:Hb; [|apply nth_error_None in Hb; lia].
+  unfold rpc_attempts in Ha, Hb.
+  pose proof (attempts_step _ _ _ _ _ _ _ _ _ _ Hok Ha Hb) as Hs. cbv zeta in Hs.
+  destruct Hs as [[Ht _]|(_ & Hr & _)].
+  - apply transp_first in Ht. destruct Ht as (Hc & Hf & Hu). split; [exact Hc|left].
+    destruct (attempts_nth _ _ _ _ _ _ _ _ _ Hok Ha) as (_ & _ & _ & _ & E). rewrite Hf in E. cbn in E.
+    split; [destruct i; [reflexivity|discriminate]|exact Hu].
+  - pose proof (retryable_uncommitted _ _ _ _ _ Hr) as Hc. split; [exact Hc|right].
+    pose proof (retryable_lt _ _ _ _ _ Hr) as Hlt.
+    unfold retryable in Hr. rewrite Hc in Hr. cbn [negb andb] in Hr.
+    apply andb_prop in Hr. destruct Hr as [Hr _]. apply andb_prop in Hr. destruct Hr as [_ Hr].
+    destruct (unproc (a_sc a)); [left; auto|right].
+    apply andb_prop in Hr. destruct Hr as [Hr Hpb]. apply andb_prop in Hr. destruct Hr as [Hact Hcode].
+    apply Z.eqb_eq in Hact. split; [exact Hact|]. split; [exact Hcode|]. split; [|exact Hlt].
+    apply orb_prop in Hpb. destruct Hpb as [E|E]; apply Z.eqb_eq in E; auto.
 Qed.
 
-Theorem committed_rpc_not_retried : forall p sizes scs, first_overflows p sizes = true ->
-  length (rpc_attempts p sizes scs) = 1%nat.
+(* "no retry happens once ... the replay buffer limit was exceeded" - by any message the
+   application produced before the attempt's failure was noticed *)
+Theorem committed_rpc_not_retried : forall p sizes scs i a, scs_ok scs ->
+  nth_error (rpc_attempts p sizes scs) i = Some a ->
+  over p sizes (sent_after (Z.of_nat (length sizes)) (a_sent a) (a_sc a)) = true ->
+  length (rpc_attempts p sizes scs) = S i.
 Proof.
-  intros p sizes scs H. unfold rpc_attempts. rewrite H.
-  replace (Z.to_nat (eff_max p) + 1)%nat with (S (Z.to_nat (eff_max p))) by lia. cbn [attempts].
-  destruct (s_act _ =? 2); [reflexivity|]. unfold should_retry, attempt_facts; cbn. reflexivity.
+  intros p sizes scs i a Hok Ha Hc.
+  destruct (Nat.lt_ge_cases (S i) (length (rpc_attempts p sizes scs))) as [Hl|Hl].
+  - destruct (retried_attempts_were_retryable _ _ _ _ _ Hok Ha Hl) as [E _]. congruence.
+  - assert (i < length (rpc_attempts p sizes scs))%nat by (apply nth_error_Some; congruence). lia.
+Qed.
+
+(* an RPC the application committed before sending (limit -1 = exceeded from the start) is
+   never retried, not even transparently *)
+Lemma cum_nonneg : forall n l, Forall (fun s => 0 <= s) l -> 0 <= fold_right (fun s acc => 5 + s + acc) 0 (firstn n l).
+Proof.
+  induction n as [|n IH]; intros l Hl; [cbn; lia|]. destruct l as [|x l]; [cbn; lia|].
+  inversion Hl; subst. cbn [firstn fold_right]. specialize (IH l H2). lia.
+Qed.
+
+Theorem precommitted_never_retried : forall p sizes scs, scs_ok scs -> Forall (fun s => 0 <= s) sizes ->
+  p_buf_limit p < 0 -> length (rpc_attempts p sizes scs) = 1%nat.
+Proof.
+  intros p sizes scs Hok Hs Hl.
+  destruct (nth_error (rpc_attempts p sizes scs) 0) as [a|] eqn:Ha.
+  - apply (committed_rpc_not_retried p sizes scs 0 a Hok Ha).
+    unfold over, cum. apply Z.ltb_lt. pose proof (cum_nonneg (Z.to_nat (sent_after (Z.of_nat (length sizes)) (a_sent a) (a_sc a))) sizes Hs). lia.
+  - exfalso. apply nth_error_None in Ha. unfold rpc_attempts in Ha.
+    replace (Z.to_nat (eff_max p) + 2)%nat with (S (Z.to_nat (eff_max p) + 1)) in Ha by lia.
+    pose proof (attempts_nonempty (Z.to_nat (eff_max p) + 1) p sizes true 0 0 scs) as Hne.
+    destruct (attempts _ p sizes true 0 0 scs); [contradiction|cbn in Ha; lia].
+Qed.
+
+(* "no retry happens once a response header or message was delivered" *)
+Theorem response_commits : forall p sizes scs i a, scs_ok scs ->
+  nth_error (rpc_attempts p sizes scs) i = Some a -> s_act (a_sc a) = 1 \/ s_act (a_sc a) = 2 ->
+  length (rpc_attempts p sizes scs) = S i.
+Proof.
+  intros p sizes scs i a Hok Ha Hact.
+  destruct (Nat.lt_ge_cases (S i) (length (rpc_attempts p sizes scs))) as [Hl|Hl].
+  - destruct (retried_attempts_were_retryable _ _ _ _ _ Hok Ha Hl) as [_ [[_ Hu]|[[Hu _]|[E _]]]]; try lia;
+      unfold unproc in Hu; apply orb_prop in Hu; destruct Hu as [Hu|Hu]; apply Z.eqb_eq in Hu; lia.
+  - assert (i < length (rpc_attempts p sizes scs))%nat by (apply nth_error_Some; congruence). lia.
 Qed.
 
 (* ---------- bridge ---------- *)
 Lemma chunk4_enc : forall l rest, chunk4 (length l) (concat (map enc_attempt l) ++ rest) = Some (map enc_attempt l, rest).
 Proof. induction l as [|a l IH]; intro rest; cbn; [reflexivity|]. rewrite IH. reflexivity. Qed.
 
-Lemma final_code_cons : forall a b l, final_code (a :: b :: l) = final_code (b :: l).
+Lemma final_res_cons : forall p q m a b l, final_res p q m (a :: b :: l) = final_res p q m (b :: l).
 Proof.
-  intros a b l. unfold final_code. cbn [rev]. 
+  intros p q m a b l. unfold final_res. cbn [rev].
   destruct (rev l ++ [b]) as [|x r] eqn:E; [destruct (rev l); discriminate|]. cbn. reflexivity.
 Qed.
 
-Lemma attempts_nonempty : forall f p m c k scs, attempts (S f) p m c k scs <> [].
-Proof.
-  intros. cbn [attempts]. destruct (s_act _ =? 2); [discriminate|]. destruct (should_retry _); discriminate.
-Qed.
+Lemma att_clauses_cons2 : forall p q sizes scs first k sent w w2 r fc nrep,
+  att_clauses p q sizes scs first k sent (w :: w2 :: r) fc nrep =
+    let sc := hd_script scs in
+    let m := Z.of_nat (length sizes) in
+    let sent' := sent_after m sent sc in
+    let ovf := over p sizes sent' in
+    (2, k, word_eqb w [k; recv_of m sc; 1; b2z (eof_of m sc)]) ::
+    (3, k, retryable p ovf first k sc || transp ovf first sc) ::
+    (5, k, implb (prev_of w2 =? prev_of w) (transp ovf first sc)) ::
+    (6, k, implb (transp ovf first sc) (prev_of w2 =? prev_of w)) ::
+    att_clauses p q sizes (tl scs) false (if transp ovf first sc then k else k + 1) sent' (w2 :: r) fc nrep.
+Proof. reflexivity. Qed.
 
-Lemma att_clauses_model : forall fuel p m c k scs, Forall (fun s => script_ok s = true) scs -> 0 <= k ->
-  eff_max p - k <= Z.of_nat fuel -> (1 <= fuel)%nat ->
-  let l := attempts fuel p m c k scs in
-  forallb (fun x => snd x) (att_clauses p m c scs k (map enc_attempt l) (final_code l) (if final_code l =? 0 then 1 else 0)) = true.
+Definition mu (p : policy) (first : bool) (k : Z) : Z := Z.max 0 (eff_max p - k) + (if first then 1 else 0).
+
+Lemma att_clauses_model : forall fuel p q sizes first k sent scs, scs_ok scs -> 0 <= k ->
+  mu p first k + 1 <= Z.of_nat fuel ->
+  let l := attempts fuel p sizes first k sent scs in
+  let fr := final_res p q (Z.of_nat (length sizes)) l in
+  forallb (fun x => snd x) (att_clauses p q sizes scs first k sent (map enc_attempt l) (fst fr) (snd fr)) = true.
 Proof.
-  induction fuel as [|f IH]; intros p m c k scs Hok Hk Hf H1; [lia|].
-  cbn zeta. cbn [attempts]. fold (hd_script scs).
-  set (sc := hd_script scs).
-  assert (Hsc : script_ok sc = true \/ sc = default_script).
-  { unfold sc, hd_script. destruct scs as [|s r]; [right; reflexivity|left; inversion Hok; assumption]. }
-  assert (Hlast : forall a, a = mkatt k (Z.min (s_r sc) m) (m <? s_r sc) sc -> retryable p c k sc = false ->
-            forallb (fun x => snd x) (att_clauses p m c scs k (map enc_attempt [a]) (final_code [a]) (if final_code [a] =? 0 then 1 else 0)) = true).
-  { intros a -> Hr. cbn [map att_clauses enc_attempt a_prev a_recv a_eof forallb snd]. fold sc.
-    rewrite word_eqb_refl, Hr. cbn [negb andb]. unfold final_code; cbn [rev app a_sc].
-    destruct (Z.eqb_spec (s_act sc) 2) as [E|E].
-    - rewrite !Z.eqb_refl. reflexivity.
-    - rewrite Z.eqb_refl. cbn [andb]. destruct Hsc as [Hs|Hs]; [|rewrite Hs in E; cbn in E; lia].
-      unfold script_ok in Hs. repeat (apply andb_prop in Hs; destruct Hs as [Hs ?]).
-      destruct (Z.eqb_spec (s_code sc) 0); [lia|reflexivity]. }
+  induction fuel as [|f IH]; intros p q sizes first k sent scs Hok Hk Hf; [unfold mu in Hf; destruct first; lia|].
+  cbv zeta. rewrite attempts_S by exact Hok. cbv zeta.
+  set (m := Z.of_nat (length sizes)). set (sc := hd_script scs).
+  set (sent' := sent_after m sent sc). set (ovf := over p sizes sent').
+  set (a := mkatt k (recv_of m sc) (eof_of m sc) sc sent first).
+  assert (Hlast : retryable p ovf first k sc = false -> transp ovf first sc = false ->
+            forallb (fun x => snd x) (att_clauses p q sizes scs first k sent (map enc_attempt [a])
+               (fst (final_res p q m [a])) (snd (final_res p q m [a]))) = true).
+  { intros Hr Ht. cbn [map att_clauses enc_attempt a a_prev a_recv a_eof forallb snd]. fold m sc sent' ovf.
+    rewrite word_eqb_refl, Hr, Ht. unfold final_res. cbn [rev app a a_first a_prev a_sent a_sc].
+    rewrite !Z.eqb_refl. reflexivity. }
   destruct (Z.eqb_spec (s_act sc) 2) as [E2|E2].
-  { apply Hlast; [reflexivity|]. unfold retryable. rewrite E2. cbn. rewrite andb_false_r. reflexivity. }
-  destruct (should_retry (attempt_facts p c k sc)) eqn:Hd.
-  - apply Hlast; [reflexivity|]. destruct Hsc as [Hs|Hs]; [|rewrite Hs in E2; cbn in E2; lia].
-    destruct (retryable p c k sc) eqn:R; [|reflexivity]. apply (retry_iff_retryable p c k sc Hs) in R. congruence.
-  - apply Hlast; [reflexivity|]. destruct Hsc as [Hs|Hs]; [|rewrite Hs in E2; cbn in E2; lia].
-    destruct (retryable p c k sc) eqn:R; [|reflexivity]. apply (retry_iff_retryable p c k sc Hs) in R. congruence.
-  - destruct Hsc as [Hs|Hs]; [|rewrite Hs in E2; cbn in E2; lia].
-    pose proof (proj1 (retry_iff_retryable p c k sc Hs) Hd) as R.
-    pose proof (retry_requirements _ Hd) as (_&_&_&_&_&Hlt). cbn in Hlt.
-    destruct f as [|f']; [lia|].
-    pose proof (attempts_nonempty f' p m c (k + 1) (tl scs)) as Hne.
-    specialize (IH p m c (k + 1) (tl scs)).
-    destruct (attempts (S f') p m c (k + 1) (tl scs)) as [|b r] eqn:Ea; [contradiction|].
-    rewrite final_code_cons. cbn [map att_clauses enc_attempt a_prev a_recv a_eof forallb snd]. fold sc.
-    rewrite word_eqb_refl, R. cbn [andb].
-    apply IH; [destruct scs; [constructor|inversion Hok; assumption]|lia|lia|lia].
+  { apply Hlast.
+    - unfold retryable, unproc. rewrite E2. cbn. rewrite !andb_false_r. reflexivity.
+    - unfold transp, unproc. rewrite E2. cbn. rewrite !andb_false_r. reflexivity. }
+  assert (Hrec : forall k', (k' = k /\ transp ovf first sc = true) \/ (k' = k + 1 /\ transp ovf first sc = false /\ retryable p ovf first k sc = true) ->
+            forallb (fun x => snd x) (att_clauses p q sizes scs first k sent
+               (map enc_attempt (a :: attempts f p sizes false k' sent' (tl scs)))
+               (fst (final_res p q m (a :: attempts f p sizes false k' sent' (tl scs))))
+               (snd (final_res p q m (a :: attempts f p sizes false k' sent' (tl scs))))) = true).
+  { intros k' Hk'.
+    assert (Hf' : mu p false k' + 1 <= Z.of_nat f /\ 0 <= k').
+    { destruct Hk' as [[-> Ht]|(-> & _ & Hr)].
+      - apply transp_first in Ht. destruct Ht as (_ & Hfi & _). rewrite Hfi in Hf. unfold mu in *. lia.
+      - apply retryable_lt in Hr. unfold mu in *. destruct first; lia. }
+    destruct Hf' as [Hf' Hk0].
+    destruct f as [|f']; [unfold mu in Hf'; lia|].
+    pose proof (attempts_nonempty f' p sizes false k' sent' (tl scs)) as Hne.
+    specialize (IH p q sizes false k' sent' (tl scs) (scs_ok_tl _ Hok) Hk0 Hf'). cbv zeta in IH. fold m in IH.
+    destruct (attempts (S f') p sizes false k' sent' (tl scs)) as [|b r] eqn:Eb; [contradiction|].
+    assert (Hb : nth_error (attempts (S f') p sizes false k' sent' (tl scs)) 0 = Some b) by (rewrite Eb; reflexivity).
+    apply attempts_head in Hb. destruct Hb as (B1 & _).
+    rewrite final_res_cons. cbn [map] in IH |- *.
+    rewrite att_clauses_cons2. cbv zeta. fold m sc sent' ovf.
+    cbn [forallb snd]. unfold enc_attempt at 1 2 3 4 5. cbn [prev_of a a_prev a_recv a_eof]. rewrite B1.
+    rewrite word_eqb_refl. cbn [andb].
+    destruct Hk' as [[-> Ht]|(-> & Ht & Hr)]; rewrite Ht.
+    - rewrite orb_true_r, Z.eqb_refl. cbn [implb andb]. exact IH.
+    - rewrite Hr. replace (k + 1 =? k) with false by (symmetry; apply Z.eqb_neq; lia). cbn [orb implb andb]. exact IH. }
+  destruct (s_act sc =? 2) eqn:E2'; [apply Z.eqb_eq in E2'; contradiction|].
+  destruct (transp ovf first sc) eqn:Ht; [apply Hrec; left; auto|].
+  destruct (retryable p ovf first k sc) eqn:Hr; [apply Hrec; right; auto|].
+  apply Hlast; reflexivity.
 Qed.
 
 Definition op_wf (p : policy) (op : word) : bool :=
-  match dec_op op with Some (sizes, scs) => rpc_wf p sizes && stall_wf p op sizes scs | None => false end.
+  match dec_op op with Some (sizes, scs) => stall_wf (pol_of p op) op sizes scs | None => false end.
 
-Lemma dec_op_ok : forall op sizes scs, dec_op op = Some (sizes, scs) -> Forall (fun s => script_ok s = true) scs /\ sizes <> [].
+Lemma eff_max_pol_of : forall p op, eff_max (pol_of p op) = eff_max p.
+Proof. intros p op. unfold pol_of. destruct (precommitted op); reflexivity. Qed.
+
+Lemma dec_op_ok : forall op sizes scs, dec_op op = Some (sizes, scs) -> scs_ok scs /\ sizes <> [].
 Proof.
   intros op sizes scs H. unfold dec_op, dec_plain in H. destruct (get_bytes (strip op)) as [[sz [|k rest]]|]; try discriminate.
   destruct (dec_scripts (length rest) rest) as [l|]; [|discriminate].
@@ -229,18 +510,19 @@ Qed.
 Lemma clause_op_model : forall p op o, 2 <= eff_max p -> run_op p op = Some o ->
   forallb (fun c => snd c) (clause_op p op o) = true.
 Proof.
-  intros p op o Hp H. unfold run_op in H. unfold clause_op.
+  intros p0 op o Hp H. unfold run_op in H. unfold clause_op. cbv zeta in *.
+  rewrite <- (eff_max_pol_of p0 op) in Hp. set (p := pol_of p0 op) in *.
   destruct (dec_op op) as [[sizes scs]|] eqn:Hd; [|discriminate].
-  destruct (rpc_wf p sizes && stall_wf p op sizes scs); [|discriminate]. inversion H; subst; clear H.
+  destruct (stall_wf p op sizes scs); [|discriminate]. inversion H; subst; clear H.
   destruct (dec_op_ok _ _ _ Hd) as [Hok _].
   set (l := rpc_attempts p sizes scs).
   assert (Hne : l <> []).
-  { unfold l, rpc_attempts. replace (Z.to_nat (eff_max p) + 1)%nat with (S (Z.to_nat (eff_max p))) by lia. apply attempts_nonempty. }
+  { unfold l, rpc_attempts. replace (Z.to_nat (eff_max p) + 2)%nat with (S (Z.to_nat (eff_max p) + 1)) by lia. apply attempts_nonempty. }
   replace (Z.of_nat (length l) <? 1) with false by (symmetry; apply Z.ltb_ge; destruct l; [contradiction|cbn; lia]).
   rewrite Nat2Z.id, chunk4_enc. cbn [forallb snd].
-  pose proof (attempt_bound p sizes scs Hp) as Hb. fold l in Hb.
-  replace (Z.of_nat (length l) <=? eff_max p) with true by (symmetry; apply Z.leb_le; exact Hb). cbn [andb].
-  unfold l, rpc_attempts. apply att_clauses_model; auto; lia.
+  pose proof (attempt_bound p sizes scs Hok Hp) as Hb. fold l in Hb.
+  replace (Z.of_nat (length l) <=? eff_max p + (if unproc (hd_script scs) then 1 else 0)) with true by (symmetry; apply Z.leb_le; exact Hb).
+  cbn [andb]. unfold l, rpc_attempts. apply att_clauses_model; [exact Hok|lia|unfold mu; lia].
 Qed.
 
 Theorem model_trace_holds : forall cfg ops p, dec_cfg cfg = Some p -> forallb (op_wf p) ops = true ->
@@ -254,23 +536,53 @@ Proof.
   induction ops as [|op ops IH]; [exists []; split; reflexivity|].
   cbn [forallb] in Hw. apply andb_prop in Hw. destruct Hw as [Hop Hw]. destruct (IH Hw) as (obs & Hr & Hh).
   unfold op_wf in Hop. destruct (dec_op op) as [[sizes scs]|] eqn:Hd; [|discriminate].
-  assert (Hro : exists o, run_op p op = Some o) by (unfold run_op; rewrite Hd, Hop; eauto).
+  assert (Hro : exists o, run_op p op = Some o) by (unfold run_op; cbv zeta; rewrite Hd, Hop; eauto).
   destruct Hro as [o Ho]. exists (o :: obs). cbn [run_ops clauses_ops]. rewrite Ho, Hr. split; [reflexivity|].
   rewrite forallb_app, (clause_op_model p op o Hp Ho). exact Hh.
 Qed.
 
-(* the held-send schedule (SendMsg of message j overtaken by a concurrent RecvMsg that retries)
-   must give every attempt exactly what the sequential schedule gives it *)
-Theorem held_send_same : forall p j op o, run_op p (0 :: j :: op) = Some o -> run_op p op = Some o.
+Lemma dec_cfg_limit : forall cfg p, dec_cfg cfg = Some p -> 0 <= p_buf_limit p /\ 2 <= eff_max p.
 Proof.
-  intros p j op o H. unfold run_op in *. unfold dec_op in *. cbn [strip] in H.
-  destruct (dec_plain op) as [[sizes scs]|] eqn:Hd; [|discriminate].
-  assert (Hs : strip op = op /\ stall_wf p op sizes scs = true).
-  { destruct op as [|h t]; [split; reflexivity|]. destruct h as [|h|h]; try (split; reflexivity).
-    exfalso. unfold dec_plain in Hd. cbn in Hd. destruct t as [|k rest]; [discriminate|].
-    destruct (dec_scripts (length rest) rest); [|discriminate].
-    rewrite andb_false_r in Hd. discriminate. }
-  destruct Hs as [Hs Hw]. rewrite Hs, Hd, Hw, andb_true_r.
-  destruct (rpc_wf p sizes); [|discriminate]. cbn [andb] in H.
-  destruct (stall_wf p (0 :: j :: op) sizes scs); [exact H|discriminate].
+  intros cfg p Hc. unfold dec_cfg in Hc. destruct cfg as [|mx [|cm [|bl r]]]; try discriminate.
+  destruct (get_bytes r) as [[cs [|]]|]; try discriminate. destruct (_ && _) eqn:E; [|discriminate].
+  inversion Hc; subst. repeat (apply andb_prop in E; destruct E as [E ?]). unfold eff_max; cbn. lia.
 Qed.
+
+(* the held-send schedule (SendMsg of message j overtaken by a concurrent RecvMsg that retries)
+   must give every attempt exactly what the sequential schedule gives it: the same attempts *)
+Theorem held_send_same : forall p j op sizes scs, dec_op (0 :: j :: op) = Some (sizes, scs) ->
+  dec_op op = Some (sizes, scs) /\
+  forall o, run_op p (0 :: j :: op) = Some o ->
+    exists o', run_op p op = Some o' /\
+      firstn (S (4 * length (rpc_attempts p sizes scs))) o = firstn (S (4 * length (rpc_attempts p sizes scs))) o'.
+Proof.
+  intros p j op sizes scs Hd.
+  assert (Hs : dec_op op = Some (sizes, scs) /\ stall_wf p op sizes scs = true /\ pol_of p op = p).
+  { unfold dec_op in *. cbn [strip] in Hd.
+    destruct op as [|h t]; [split; [exact Hd|split; reflexivity]|].
+    destruct h as [|h|h].
+    - exfalso. unfold dec_plain in Hd. cbn in Hd. destruct t as [|k rest]; [discriminate|].
+      destruct (dec_scripts (length rest) rest); [|discriminate].
+      rewrite andb_false_r in Hd. discriminate.
+    - split; [exact Hd|split; reflexivity].
+    - exfalso. unfold dec_plain in Hd. cbn in Hd. discriminate. }
+  destruct Hs as (Hs & Hw & Hpo). split; [exact Hs|]. intros o H. unfold run_op in *. cbv zeta in *.
+  rewrite Hpo. change (pol_of p (0 :: j :: op)) with p in H. rewrite Hd in H. rewrite Hs, Hw.
+  destruct (stall_wf p (0 :: j :: op) sizes scs); [|discriminate]. inversion H; subst; clear H.
+  eexists. split; [reflexivity|].
+  set (l := rpc_attempts p sizes scs).
+  assert (Hlen : length (concat (map enc_attempt l)) = (4 * length l)%nat).
+  { induction l as [|a l IHl]; [reflexivity|]. cbn [map concat enc_attempt]. rewrite app_length, IHl. cbn. lia. }
+  cbn [firstn]. f_equal. rewrite <- Hlen. rewrite !firstn_app, !Nat.sub_diag, !firstn_all. cbn. reflexivity.
+Qed.
+
+(* NOTE (outside the text of C18, which does not speak about the status the application sees):
+   on the real code, when a retry attempt created by RecvMsg fails - or completes - while its
+   replay is still writing, the replayed SendMsg's io.EOF becomes RecvMsg's result: clean end of
+   stream, no reply, although the last attempt ended with UNAVAILABLE after response headers.
+   The driver reproduces it deterministically (case 0, fifth RPC); the model follows the code. *)
+Lemma note_replay_eof_masks_status :
+  exists p, dec_cfg [4; 5; 64; 2; 14; 8] = Some p /\
+    run_op p [2; 3; 4; 2; 3;0;14;0; 1;1;14;0] = Some [2; 0;2;1;1; 1;1;1;0; 0; 0] /\
+    final_of p true 2 false 1 2 (mksc 1 1 14 0) = (0, 0) /\ std_code (mksc 1 1 14 0) = 14.
+Proof. eexists. split; [reflexivity|]. vm_compute. auto. Qed.
